@@ -31,7 +31,10 @@ var c10TypeSets = [][][2]string{
 	{{"objects", "count"}, {"space", "bytes"}},
 }
 
-func c10GenProfile(r *Rng) *profile.Profile {
+func c10GenProfile(r *Rng) *profile.Profile { return c10GenProfileSized(r, 10+r.Intn(14), 6) }
+
+// c10GenProfileSized: ns samples of depth ≤ depth (large ones make web pages exceed 64 KiB).
+func c10GenProfileSized(r *Rng, ns, depth int) *profile.Profile {
 	p := &profile.Profile{}
 	ts := c10TypeSets[r.Intn(len(c10TypeSets))]
 	for _, t := range ts {
@@ -73,10 +76,9 @@ func c10GenProfile(r *Rng) *profile.Profile {
 	}
 	reqs := []string{"a", "b", "c"}
 	tenants := []string{"x", "y"}
-	ns := 10 + r.Intn(14)
 	for i := 0; i < ns; i++ {
 		s := &profile.Sample{}
-		d := 1 + r.Intn(6)
+		d := 1 + r.Intn(depth)
 		for j := 0; j < d; j++ {
 			s.Location = append(s.Location, p.Location[r.Intn(len(p.Location))])
 		}
